@@ -128,7 +128,7 @@ func (w *World) Do(tr http.RoundTripper, spec CallSpec) *CallResult {
 		ctx = ociauth.ContextWithRequestInfo(ctx, ociauth.RequestInfo{RequiredScope: rs})
 	}
 	if !spec.NoDesired {
-		ds := spec.Desired.OCI()
+		ds := w.desiredValue(spec.Desired)
 		if spec.DesiredText != "" {
 			ds = ociauth.ParseScope(spec.DesiredText)
 		}
@@ -270,4 +270,27 @@ func (w *World) Do(tr http.RoundTripper, spec CallSpec) *CallResult {
 	mu.Unlock()
 	res.Ex = w.Exchanges(res.ID)
 	return res
+}
+
+// desiredValue returns the Scope value this conversation's caller uses for a desired set: one value per
+// set, made once and attached to every request that wants that set (callers keep such a value around),
+// and made the way callers make them - as the union of two scopes that overlap. A Scope is a value; using
+// it as an operand does not change it.
+func (w *World) desiredValue(set Set) ociauth.Scope {
+	key := set.String()
+	w.mu.Lock()
+	defer w.mu.Unlock()
+	if v, ok := w.desiredValues[key]; ok {
+		return v
+	}
+	if w.desiredValues == nil {
+		w.desiredValues = map[string]ociauth.Scope{}
+	}
+	v := set.OCI()
+	if len(set) >= 2 {
+		// the whole set joined onto the set without its first member: the same scope, built in two steps
+		v = Set(set[1:]).OCI().Union(v)
+	}
+	w.desiredValues[key] = v
+	return v
 }
